@@ -19,6 +19,7 @@
 //!        |  'f' cid           Finish (the service future of connection cid completes)
 //!        |  'a' ms            Advance the (virtual) clock
 //!        |  'x'               CloseConn (the accept side drops its handle)
+//!        |  'y'               CloseStop (the server side drops its stop handle)
 //! Trace :=  seg ('|' seg)*  ' ## ' diag ('|' diag)*      one seg per executed op
 //!   seg events, in this order: main events in execution order
 //!        r<k><O|P|E> poll_ready of service k      k<svc>.<cid> call      n<f> new_service of factory f
@@ -179,6 +180,7 @@ enum Op {
     Finish(usize),
     Advance(u64),
     Close,
+    CloseStop,
 }
 
 struct Cfg {
@@ -219,6 +221,7 @@ fn parse(line: &str) -> Option<(Cfg, Vec<Op>)> {
             "sf" => Op::Stop(false),
             "p" => Op::PollW,
             "x" => Op::Close,
+            "y" => Op::CloseStop,
             _ => match t.as_bytes()[0] {
                 b'c' => {
                     let (a, b) = t[1..].split_once('.')?;
@@ -330,6 +333,7 @@ async fn drive(cfg: Cfg, ops: Vec<Op>, listener: &TcpListener) -> String {
     CTX.with(|c| c.borrow_mut().started = true);
     let mut worker = Some(worker);
     let mut accept = Some(accept);
+    let mut stop = Some(stop);
     let waker = Waker::from(Arc::new(Noop));
     let t0 = tokio::time::Instant::now();
     let mut virt: u64 = 0;
@@ -381,8 +385,13 @@ async fn drive(cfg: Cfg, ops: Vec<Op>, listener: &TcpListener) -> String {
                 }
             }
             Op::Stop(g) => {
-                let sid = stops.len();
-                stops.push((sid, stop.stop(g), false));
+                if let Some(h) = stop.as_ref() {
+                    let sid = stops.len();
+                    stops.push((sid, h.stop(g), false));
+                }
+            }
+            Op::CloseStop => {
+                stop = None;
             }
             Op::PollW => {
                 let mut cx = Context::from_waker(&waker);
